@@ -220,7 +220,10 @@ def check_property(prop, targets, *, tier="quick", assumptions=(), trusted_base=
               "source_sha256": r.get("source_sha256")}
         confirmed = False
         replay_fn = getattr(tgt, "replay", None)
-        if replay_fn is not None and o.get("model") is not None:
+        if o.get("native_replay") is not None:
+            rp["native_replay"] = o["native_replay"]
+            confirmed = bool(o["native_replay"].get("confirmed"))
+        elif replay_fn is not None and o.get("model") is not None:
             try:
                 out = replay_fn(o)
                 rp["native_replay"] = out
